@@ -21,7 +21,10 @@
    STEP 2 lazy_exec_phase_perm_partial (any permutation of the execution phase: the blocks' canonical deltas laid out in list order, all configurations),
    lazy_eval_extract_partial (a successful lazy evaluation phase read back as store valuation + graph operations), STEP 3 lazy_block_order_iso_partial.
    Earlier theorems (kept): scoped-variable forcing and the deferred graph operations are order independent.
-   NOT proved: blocks that communicate through scoped variables (fragment v2); debug attributes up to the location attribute of multiply-created edges. *)
+   NOT proved: blocks that communicate through scoped variables (STEP 4).  The execution phase would extend (cells collect pairs in block order; eager positions must be
+   scoped-free so that no cell is forced early: the K4b class), but the evaluation phase needs new forcing lemmas: with a reader before its definer the value thunk of a
+   definition lies AFTER the reading thunk in the store, so the store is no longer acyclic by index (the well-foundedness used by SLForce/SL2Force and here), and a set value
+   may then mix nodes of several blocks, so values would have to be compared up to re-sorting of sets.  Debug attributes: see c08_debug_attribute_depends_on_order. *)
 From TSG Require Import Model.Lazy Model.Run Model.Stdlib Proofs.Scoped Proofs.PermFacts Proofs.SLGraph Proofs.SLForce Proofs.SLExpr Proofs.SLStmt Proofs.StrictLazy Proofs.EvalPerm Proofs.EvalPermLazy
   Proofs.BlockPermRen Proofs.BlockPermSim Proofs.BlockPermSwap Proofs.BlockPermExec Proofs.BlockPermDen Proofs.BlockPermGraph Proofs.BlockPermEval Proofs.BlockPermStd Proofs.BlockPermExample Proofs.BlockPermFuel Proofs.BlockPermRun.
 From Coq Require Import Permutation.
